@@ -29,6 +29,10 @@ def _connect_few_threads(*a: Any, **k: Any) -> Any:
 
 duckdb.connect = _connect_few_threads
 
+import logging  # noqa: E402
+
+logging.getLogger("sqlglot").setLevel(logging.ERROR)  # "Unsupported property ..." warnings of the generator are not our subject
+
 # ------------------------------------------------------------------ tagged values
 
 
